@@ -5,3 +5,4 @@ import Fix8Model.Props.C10
 import Fix8Model.Props.C12
 import Fix8Model.Props.C26
 import Fix8Model.Props.C27
+import Fix8Model.Props.C29
